@@ -223,6 +223,10 @@ theorem io_refines_slice (r : Io) (n : Nat) :
       ∀ bs r', r.forwardBytes n = some (bs, r') → (abs r).readExact n = some (bs, abs r')) :=
   ⟨peek_refines r, next_refines r, peekBytes_refines r n, readExact_refines r n, forwardBytes_refines r n⟩
 
+/-- generated obligation: the buffer and counter operations the model mirrors are present in
+    read/ioread.rs, in the model's order -/
+theorem source_io_shape : sourceShape = true := by decide
+
 /-- non-vacuity: a reader with a byte looked at and a stream behind it -/
 example : (Io.readExact { buf := [1], src := [2, 3, 4], consumed := 5 } 3) =
     some ([1, 2, 3], { buf := [], src := [4], consumed := 8 }) := by decide
